@@ -179,4 +179,31 @@ theorem b64offset_unsound_with_char_len :
 example : b64offsetAt stdTables 3 [97, 195, 164] 1 <:+: b64 ([0] ++ [97, 195, 164] ++ [0]) := by
   decide
 
+/-! ## 7. Value lists: every payload of the list is found -/
+
+/-- A detection item with a list of payloads finds each of them: for every element `v` of the list
+and every byte string that contains `v` (any prefix, any suffix) at least one of the values produced
+for the list occurs in the Base64 text — no element may be left out, whatever the other elements are
+(equal up to letter case, prefixes of each other, …). -/
+theorem b64offset_list_complete (T : Tables) (hT : T.sound = true) (vs : List (List Byte))
+    (v : List Byte) (hv : v ∈ vs) (p s : List Byte) :
+    ∃ x ∈ b64offsetList T vs, x <:+: b64 (p ++ v ++ s) := by
+  refine ⟨b64offsetAt T v.length v (p.length % 3), ?_, b64offset_complete T hT p v s⟩
+  unfold b64offsetList
+  rw [List.mem_flatMap]
+  refine ⟨v, hv, ?_⟩
+  unfold b64offset
+  exact List.mem_map.mpr ⟨p.length % 3, List.mem_range.mpr (Nat.mod_lt _ (by decide)), rfl⟩
+
+example : ∃ x ∈ b64offsetList stdTables [[73, 69, 88], [105, 101, 120]],
+    x <:+: b64 ([7] ++ [105, 101, 120] ++ [9, 9]) :=
+  b64offset_list_complete stdTables (by decide) _ [105, 101, 120] (by decide) [7] [9, 9]
+
+/-- … and every element is needed: the values of "IEX" alone do not find "iex" (Base64 is
+case-sensitive although Sigma string matching is not), so a list may not be reduced to its
+elements up to letter case before the modifier runs -/
+theorem b64offset_list_needs_every_payload :
+    ¬ ∃ x ∈ b64offsetList stdTables [[73, 69, 88]], x <:+: b64 ([] ++ [105, 101, 120] ++ []) := by
+  decide
+
 end SigmaVerif.Props.C04
